@@ -18,6 +18,13 @@ def parseOp (prim : String) (s : String) : Option SOp :=
   let op : Option SOp :=
     match name, arg with
     | "lock", none => some .lock
+    -- Mutex::Guard / Monitor::Guard (Mutex.hpp, Monitor.hpp): constructor = lock(), destructor = unlock(), Guard::wait forwards
+    | "glock", none => some .lock
+    | "gunlock", none => some .unlock
+    | "gwait", none => if prim == "mon" then some .wait else none
+    | "gtwait", some a => if prim == "mon" then a.toNat?.map .twait else none
+    | "tid", none => some .tid
+    | "yield", none => some .yield
     | "try", some a => a.toNat?.map .try_
     | "unlock", none => some .unlock
     | "signal", none => some .signal
